@@ -45,7 +45,7 @@ ASSUMPTIONS = [
     "leaving the position unchanged is also accepted",
     "slice bounds follow Python slice clipping (step None or 1)",
 ]
-FLOORS = {"op_inside_controller_context": 5000, "stock_warning_filters": 5000, "views_for_vertices": 80, "cleared_allocation": 100, "failed_transfer": 100, "op_checked": 5000, "confinement_checked": 1500,
+FLOORS = {"truncation_raised_as_error": 50, "op_inside_controller_context": 5000, "stock_warning_filters": 5000, "views_for_vertices": 80, "cleared_allocation": 100, "failed_transfer": 100, "op_checked": 5000, "confinement_checked": 1500,
           "truncated_transfer": 200, "outside_position_transfer": 100,
           "closed_or_freed_op": 200, "slice_checked": 500,
           "twin_view_same_address_other_chip": 200, "twin_view_freed_first": 100,
@@ -449,7 +449,13 @@ def run(case, ctx):
         caught = []
         try:
             with warnings.catch_warnings(record=True) as caught:
-                if case["seed"] % 4:
+                if case["seed"] % 4 == 2 and kind in ("read", "write") and \
+                        len(trace) % 3 == 0 and not net_down:
+                    # the docstrings' own suggestion for callers who want
+                    # truncation to be an error
+                    warnings.simplefilter("always")
+                    warnings.simplefilter("error", mcm.TruncationWarning)
+                elif case["seed"] % 4:
                     warnings.simplefilter("always")
                 else:
                     # the interpreter's stock filters (and whatever
@@ -470,6 +476,29 @@ def run(case, ctx):
         except Exception as e:
             res, exc = None, e
         ctx.hit("op_checked")
+        if isinstance(exc, mcm.TruncationWarning) and not net_down:
+            # truncation reported as an error: whatever was (not)
+            # transferred, the view's position and the machine agree about
+            # it, and nothing left the view
+            ctx.hit("truncation_raised_as_error")
+            io = wire()
+            moved = sum(n for cmd, a, n in io)
+            for cmd, a, n in io:
+                check(v.start <= a and a + n <= v.end, "access-outside-view",
+                      "[%#x, %#x) by a view covering [%#x, %#x)" %
+                      (a, a + n, v.start, v.end), **where)
+            try:
+                now = v.obj.tell()
+            except Exception as ex:
+                raise Violation("tell-failed-after-failed-transfer",
+                                repr(ex), **where)
+            check(now - v.pos == moved, "position-moved-by-failed-transfer"
+                  if moved == 0 else "position-after-write",
+                  "%s raised TruncationWarning (an error by the caller's "
+                  "filter) having transferred %d bytes, tell() went from %d "
+                  "to %d" % (kind, moved, v.pos, now), **where)
+            v.pos = now
+            continue
         if net_down:
             r.net.plan = None
             if isinstance(exc, r.sc.SCPError):
